@@ -329,15 +329,15 @@ func (g *progGen) Mem() operand.Mem {
 		g.tag("mem-index")
 	}
 	if g.r.Chance(15) {
-		return operand.NewStackAddr(g.r.Intn(4) * 8)
+		return stackMem(g.r.Intn(4) * 8)
 	}
 	if g.r.Chance(12) { // stack / argument area indexed by a register: the index is read
 		g.tag("mem-pseudo-index")
 		ix := g.GP(reg.S64)
 		if g.r.Bool() {
-			return operand.NewStackAddr(g.r.Intn(4)*8).Idx(ix, Pick(g.r, []uint8{1, 2, 4, 8}))
+			return idxMem(stackMem(g.r.Intn(4)*8), ix, Pick(g.r, []uint8{1, 2, 4, 8}))
 		}
-		return operand.NewParamAddr("x", g.r.Intn(2)*8).Idx(ix, Pick(g.r, []uint8{1, 8}))
+		return idxMem(paramMem("x", g.r.Intn(2)*8), ix, Pick(g.r, []uint8{1, 8}))
 	}
 	return m
 }
